@@ -172,6 +172,8 @@ class System(BigSMILESbase):
             yield mol_gen
 
     def generate(self, prefix=None, rng=_GLOBAL_RNG):
+        if not self.generable:
+            raise RuntimeError("Generable system required")
 
         relative_fractions = [mol.mixture.relative_mass for mol in self._molecules]
         mol_idx = rng.choice(
